@@ -80,6 +80,10 @@ func ExecC14(c Case) *ev.Result {
 type dirState struct {
 	wasFull map[string]bool
 	limit   int
+	// pristine: nothing has been deleted, collected or reopened yet, so every directory of a root
+	// except the one in use is full: a root holding n files has at most n/limit + 2 directories (the
+	// effective limit is the configured one, raised to 100 if it is lower)
+	pristine bool
 }
 
 func (w *World) effLimit() int {
@@ -106,6 +110,18 @@ func (w *World) checkTree(what string, ds *dirState, afterWrite bool) bool {
 		if n >= ds.limit && !ds.wasFull[d] {
 			ds.wasFull[d] = true
 			w.Stats["dir-reached-limit"]++
+		}
+	}
+	if ds.pristine {
+		files := map[string]int{}
+		for d, n := range t.Dirs {
+			files[filepath.Dir(d)] += n
+		}
+		for root, nd := range perRoot {
+			if nd > files[root]/ds.limit+2 {
+				w.R.Failf("%s: root %s holds %d files in %d directories although nothing was ever deleted: directories are retired before they hold %d entries (the effective limit)", what, root, files[root], nd, ds.limit)
+				return false
+			}
 		}
 	}
 	if afterWrite {
@@ -138,7 +154,7 @@ func ExecC17(c Case) *ev.Result {
 		return r
 	}
 	defer w.Close()
-	ds := &dirState{wasFull: map[string]bool{}, limit: w.effLimit()}
+	ds := &dirState{wasFull: map[string]bool{}, limit: w.effLimit(), pristine: true}
 	var bursts [][]string // keys of each burst still (possibly) present
 	nb := 0
 	dropped := map[string]map[string]bool{} // root no longer configured -> files it held when it was dropped
@@ -146,6 +162,9 @@ func ExecC17(c Case) *ev.Result {
 		what := fmt.Sprintf("step %d (%s)", i, op.K)
 		w.step = i
 		wrote := false
+		if op.K != "burst" {
+			ds.pristine = false // overwrites, deletions, collector runs, reopening: directories may have room again
+		}
 		switch op.K {
 		case "burst":
 			var keys []string
